@@ -14,6 +14,7 @@ it are satisfied by a concrete non-trivial input.
 import DuneVerif.Proofs.C15Pool
 import DuneVerif.Proofs.C15Intr
 import DuneVerif.Proofs.C15Raw
+import DuneVerif.Proofs.C15Keep
 
 namespace DV.C15
 open DV.C15.Gen
@@ -480,6 +481,97 @@ example : DInv 4096 [⟨0x10000, 0x10000, 2, 4096, 4096⟩, ⟨0x30000, 0x30000 
 
 -- deallocating with a wrong size aborts (`none`)
 example : dbgRun 1 4096 [] [.alloc 100 (some 0x30000), .free (0x30000 + 4096 - 100) 99] = none := by decide
+
+/-! ## DebugAllocator, compile-time configuration `DEBUG_ALLOCATOR_KEEP`
+
+`deallocate` keeps the entry of a released block and keeps its mapping (inaccessible); only the destructor gives memory
+back.  The hypothesis on `mmap` therefore ranges over **all** recorded entries, released ones included — it is justified
+exactly because the KEEP branch does not unmap (`keepUnmaps_eq`, regenerated from the source): a mapping that still
+exists cannot be handed out again. -/
+
+/-- all valid histories in the KEEP configuration (any number of allocate / release / allocate-again rounds): the
+    manager never aborts — every `deallocate` of a block in use finds its own entry although released entries stay in
+    the list —, nothing is unmapped before destruction, and the recorded entries are exactly the mappings obtained,
+    in order -/
+theorem keep_history_never_aborts (sz page : Nat) (hsz : 0 < sz) (hp : 0 < page) (hp2 : 2 * page ≤ sizeMax)
+    (ops : List DOp) (hv : KValid sz page [] ops) :
+    ∃ l evs, kRun sz page [] ops = some (l, evs) ∧ KInvG page (fun it ai => it.pagePtr ≠ ai.pagePtr) l ∧
+      unmaps evs = [] ∧ (infos l).map (AInfo.rng page) = maps evs := by
+  obtain ⟨st, h1, h2, h3, h4⟩ := kRun_ok separates_ne hsz hp hp2 ops [] (kinv_nil _ _) hv
+  exact ⟨st.1, st.2, h1, h2, h3, by simpa [infos] using h4⟩
+
+/-- destroying the manager returns all memory it obtained, KEEP configuration: the destructor's `munmap` calls are
+    exactly the `mmap` calls of the history (same address, same length, same order, each once), whatever was released
+    before; and it reports "lost allocations" iff some block is still in use -/
+theorem keep_destroy_returns_all_memory (sz page : Nat) (hsz : 0 < sz) (hp : 0 < page) (hp2 : 2 * page ≤ sizeMax)
+    (ops : List DOp) (hv : KValid sz page [] ops) :
+    ∃ l evs, kRun sz page [] ops = some (l, evs) ∧
+      unmaps (evs ++ (kDestroy page l).1) = maps evs ∧
+      ((kDestroy page l).2 = true ↔ ∀ it ∈ l, it.notFree = false) := by
+  obtain ⟨l, evs, h1, h2, h3, h4⟩ := keep_history_never_aborts sz page hsz hp hp2 ops hv
+  refine ⟨l, evs, h1, ?_, ?_⟩
+  · rw [unmaps_append, h3, List.nil_append, unmaps_kDestroy h2.entry, h4]
+  · simp [kDestroy, List.all_eq_true]
+
+/-- released blocks are not reused while the manager lives, and blocks in use are disjoint (KEEP configuration): when
+    `mmap` returns ranges disjoint from the mappings that still exist, any two recorded blocks — released or in use —
+    do not overlap and no block reaches into a guard page -/
+theorem keep_blocks_never_reused (sz page : Nat) (hsz : 0 < sz) (hp : 0 < page) (hp2 : 2 * page ≤ sizeMax)
+    (ops : List DOp) (hv : KValidD sz page [] ops) :
+    ∃ l evs, kRun sz page [] ops = some (l, evs) ∧
+      (infos l).Pairwise (fun a b =>
+        (a.ptr + a.cap ≤ b.ptr ∨ b.ptr + b.cap ≤ a.ptr) ∧
+        (a.ptr + a.cap ≤ b.pagePtr + (b.pages - 1) * page ∨ b.pagePtr + b.pages * page ≤ a.ptr) ∧
+        (b.ptr + b.cap ≤ a.pagePtr + (a.pages - 1) * page ∨ a.pagePtr + a.pages * page ≤ b.ptr)) := by
+  obtain ⟨st, h1, h2, _, _⟩ := kRun_ok (separates_apart hp) hsz hp hp2 ops [] (kinv_nil _ _) hv
+  refine ⟨st.1, st.2, h1, ?_⟩
+  have he := h2.entry
+  refine List.Pairwise.imp_of_mem (fun {a b} ha hb hab => ?_) h2.rel
+  have hab' : apart page b a := by unfold apart at hab ⊢; omega
+  exact ⟨(blocks_apart (he a ha) (he b hb) hab).1, (blocks_apart (he a ha) (he b hb) hab).2,
+    (blocks_apart (he b hb) (he a ha) hab').2⟩
+
+/-- why the mapping must be kept together with the entry: if a released entry's range were handed out again (possible
+    only once it is unmapped), the stale entry is found first and the legal `deallocate` of the new block aborts -/
+theorem keep_stale_entry_aborts (page : Nat) (stale : KInfo) (rest : List KInfo) (ptr n : Nat)
+    (hkey : stale.info.pagePtr = dbgLookupKey ptr page) (hfree : stale.notFree = false) :
+    kDeallocate page (stale :: rest) ptr n = none :=
+  kDeallocate_stale_aborts stale rest ptr n hkey hfree
+
+-- second use in the KEEP configuration: allocate 7 bytes, release, allocate 7 bytes again (a fresh mapping, since the
+-- first still exists), release: no abort, nothing unmapped, the destructor unmaps both mappings and finds nothing in use
+example : kRun 1 4096 [] [.alloc 7 (some 0x10000), .free (0x10000 + 4096 - 7) 7, .alloc 7 (some 0x30000),
+      .free (0x30000 + 4096 - 7) 0] =
+      some ([⟨⟨0x10000, 0x10000 + 4096 - 7, 2, 7, 7⟩, false⟩, ⟨⟨0x30000, 0x30000 + 4096 - 7, 2, 7, 7⟩, false⟩],
+        [.map 0x10000 8192, .map 0x30000 8192]) ∧
+    kDestroy 4096 [⟨⟨0x10000, 0x10000 + 4096 - 7, 2, 7, 7⟩, false⟩, ⟨⟨0x30000, 0x30000 + 4096 - 7, 2, 7, 7⟩, false⟩] =
+      ([.unmap 0x10000 8192, .unmap 0x30000 8192], true) ∧
+    KValidD 1 4096 [] [.alloc 7 (some 0x10000), .free (0x10000 + 4096 - 7) 7, .alloc 7 (some 0x30000),
+      .free (0x30000 + 4096 - 7) 0] := by
+  refine ⟨by decide, by decide, ?_⟩
+  refine kvalid_alloc_ok (ai := ⟨0x10000, 0x10000 + 4096 - 7, 2, 7, 7⟩)
+    (l' := [⟨⟨0x10000, 0x10000 + 4096 - 7, 2, 7, 7⟩, true⟩]) rfl (by decide) (by decide) ?_
+  refine kvalid_free (it := ⟨⟨0x10000, 0x10000 + 4096 - 7, 2, 7, 7⟩, true⟩) (a := ⟨0x10000, 0x10000 + 4096 - 7, 2, 7, 7⟩)
+    (l' := [⟨⟨0x10000, 0x10000 + 4096 - 7, 2, 7, 7⟩, false⟩]) (by decide) (by decide) rfl rfl (Or.inr rfl) ?_
+  refine kvalid_alloc_ok (ai := ⟨0x30000, 0x30000 + 4096 - 7, 2, 7, 7⟩)
+    (l' := [⟨⟨0x10000, 0x10000 + 4096 - 7, 2, 7, 7⟩, false⟩, ⟨⟨0x30000, 0x30000 + 4096 - 7, 2, 7, 7⟩, true⟩]) rfl
+    (by decide) (by decide) ?_
+  refine kvalid_free (it := ⟨⟨0x30000, 0x30000 + 4096 - 7, 2, 7, 7⟩, true⟩) (a := ⟨0x30000, 0x30000 + 4096 - 7, 2, 7, 7⟩)
+    (l' := [⟨⟨0x10000, 0x10000 + 4096 - 7, 2, 7, 7⟩, false⟩, ⟨⟨0x30000, 0x30000 + 4096 - 7, 2, 7, 7⟩, false⟩])
+    (by decide) (by decide) rfl rfl (Or.inl rfl) ?_
+  exact trivial
+
+-- the same history with `mmap` handing the first range out again (not `KValid`: the first mapping still exists) aborts
+-- at the second release: the stale entry is found first
+example : kRun 1 4096 [] [.alloc 7 (some 0x10000), .free (0x10000 + 4096 - 7) 7, .alloc 7 (some 0x10000),
+      .free (0x10000 + 4096 - 7) 7] = none ∧
+    kDeallocate 4096 [⟨⟨0x10000, 0x10000 + 4096 - 7, 2, 7, 7⟩, false⟩, ⟨⟨0x10000, 0x10000 + 4096 - 7, 2, 7, 7⟩, true⟩]
+      (0x10000 + 4096 - 7) 7 = none := by
+  refine ⟨by decide, keep_stale_entry_aborts 4096 _ _ _ _ (by decide) rfl⟩
+
+-- a double free in the KEEP configuration aborts (`none`), a block still in use at destruction is reported
+example : kRun 1 4096 [] [.alloc 7 (some 0x10000), .free (0x10000 + 4096 - 7) 7, .free (0x10000 + 4096 - 7) 7] = none ∧
+    (kDestroy 4096 [⟨⟨0x10000, 0x10000 + 4096 - 7, 2, 7, 7⟩, true⟩]).2 = false := by decide
 
 /-! ## debugalign.hh -/
 
